@@ -251,7 +251,7 @@ pub fn run(r: &mut Runner) -> &'static str {
     r.rule = "inputs: (x, t) with x from the valid-line / valid-v2-header generators and from the union of all byte generators (so inputs the parser accepts wrongly are included), t from the trailer classes \
               (empty, random, application text, a second v1 / v2 header, CR/LF/NUL bytes, bytes that would extend the last field, invalid UTF-8). oracle (metamorphic, conditioned on the parser's own acceptance of x), \
               per entry point P in {v1 bytes, v1 &str, v2, auto}: header H is a prefix of x; P(x++t) == P(x); P(H) == P(x); P(H++t) == P(x); |H| = first CR + 2 and H ends in CRLF (v1) / 16 + be16(x[14..16]) (v2). \
-              non-trivial = accepted x with a non-empty trailer; distinct by SipHash of the pair"
+              non-trivial = accepted x with a non-empty trailer; distinct by SipHash of the pair Added later: FromStr routes as parsers of their own, TLV-run and 64 KiB+ trailers, every parse from the reused read buffer with an unrelated parse between the two sides of each relation, v2 len() as the number of bytes to remove."
         .into();
     r.assumptions.push("conditioned on acceptance by the implementation; candidates the reference calls valid but the parser rejects are counted as discarded (C01/C02 report them)".into());
     let n = r.n(300_000, 8_000_000);
